@@ -3,6 +3,10 @@ use crate::PropDef;
 pub mod pairs;
 pub mod sessgen;
 
+pub mod typedgen;
+
+pub mod c01;
+pub mod c02;
 pub mod c03;
 pub mod c04;
 pub mod c05;
@@ -25,6 +29,8 @@ pub mod c24;
 
 pub fn all() -> Vec<PropDef> {
     vec![
+        c01::def(),
+        c02::def(),
         c03::def(),
         c04::def(),
         c05::def(),
